@@ -691,3 +691,195 @@ def narrowing_casts(ctx: Ctx, modules: tuple[str, ...] = ("cirkit.backend.torch.
                 out.append(ok("R14p", f.qualname, f"narrow:{tgt}", f"guarded by a bound of {bound} <= {cap}", site))
     out.append(ok("R14p", "cirkit.backend.torch", "narrowing-casts", f"{n_fn} sampling functions scanned", "", nontrivial=False))
     return out
+
+
+# ------------------------------------------------------------------------------------------ R14q
+def _poly(e: ast.AST, env: dict[str, "Dim"], ld: LocalDefs, depth: int = 3):
+    """an integer expression as a polynomial over symbols (attribute chains and loop variables)"""
+    from ..dims import Dim
+
+    if isinstance(e, ast.Constant) and isinstance(e.value, int) and not isinstance(e.value, bool):
+        return Dim.const(e.value)
+    if isinstance(e, ast.Name):
+        if e.id in env:
+            return env[e.id]
+        defs = [d for d in ld.defs.get(e.id, []) if isinstance(d, ast.expr)]
+        if len(defs) == 1 and depth > 0:
+            return _poly(defs[0], env, ld, depth - 1)
+        return None
+    if isinstance(e, ast.Attribute):
+        d = dotted(e)
+        return Dim.sym(d) if d else None
+    if isinstance(e, ast.BinOp) and isinstance(e.op, (ast.Add, ast.Sub, ast.Mult)):
+        l, r = _poly(e.left, env, ld, depth), _poly(e.right, env, ld, depth)
+        if l is None or r is None:
+            return None
+        return l + r if isinstance(e.op, ast.Add) else l - r if isinstance(e.op, ast.Sub) else l * r
+    return None
+
+
+def kronecker_sum_weight_layout(ctx: Ctx, fq: str = "cirkit.symbolic.operators.multiply_sum_layers") -> list[Ob]:
+    """R14q -- the weight of the product of two sum layers is laid out as its inputs are.
+
+    ``multiply`` gives the product of two sum layers the products of all pairs of their inputs,
+    first operand major (``itertools.product(l1_inputs, l2_inputs)``), each with the units
+    (i1, i2): column ``((a1*H2 + a2)*K1 + i1)*K2 + i2``.  The Kronecker product of the two weights has
+    its columns at ``(a1*K1 + i1)*(H2*K2) + a2*K2 + i2``.  The two agree only when K1 == 1 or H2 == 1;
+    a rule that builds a sum layer of arity H1*H2 from the Kronecker product must therefore re-index
+    the columns (an IndexParameter on the column axis whose i-th entry, for the i-th tuple
+    (a1, a2, i1, i2) in that nesting order, is the Kronecker column -- decided as a polynomial
+    identity), or refuse arities above one."""
+    from ..dims import Dim
+
+    f = ctx.repo.func(fq)
+    ld = LocalDefs(f.node)
+    ps = [p.name for p in f.params if p.kind == "pos"]
+    if len(ps) < 2:
+        raise AnalysisError(f"R14q: {fq} no longer takes two layers")
+    p1, p2 = ps[0], ps[1]
+    out: list[Ob] = []
+    uses_kron = any(isinstance(n, ast.Call) and (dotted(n.func) or "").split(".")[-1] == "KroneckerParameter" for n in ast.walk(f.node))
+    sums = [n for n in ast.walk(f.node) if isinstance(n, ast.Call) and (dotted(n.func) or "").split(".")[-1] == "SumLayer"]
+    if not uses_kron or not sums:
+        return [unres("R14q", f.qualname, "kronecker-columns", "the rule no longer builds a SumLayer from a KroneckerParameter (another formulation): no verdict", f.loc)]
+    nary = False
+    for c in sums:
+        for k in c.keywords:
+            if k.arg == "arity" and not (isinstance(k.value, ast.Constant) and k.value.value == 1):
+                nary = True
+    refuses = any(
+        isinstance(n, ast.If) and any(isinstance(b, ast.Raise) for b in n.body) and any(isinstance(x, ast.Attribute) and x.attr == "arity" for x in ast.walk(n.test))
+        for n in ast.walk(f.node)
+    )
+    if not nary or refuses:
+        return [ok("R14q", f.qualname, "kronecker-columns", "the product sum layer has arity one, or arities above one are refused", f.loc)]
+    idx_calls = [n for n in ast.walk(f.node) if isinstance(n, ast.Call) and (dotted(n.func) or "").split(".")[-1] == "IndexParameter"]
+    if not idx_calls:
+        return [viol("R14q", f.qualname, "kronecker-columns", "the product of two n-ary sum layers takes the Kronecker product of the weights as it is: its columns are ordered (a1, i1, a2, i2) while the inputs of the product layer are the pairs (a1, a2) with units (i1, i2) -- for K1 > 1 and H2 > 1 the weights are applied to the wrong input units (two tensor-train circuits multiply to a different function)", f.loc)]
+    H1, K1, H2, K2 = (Dim.sym(f"{p1}.arity"), Dim.sym(f"{p1}.num_input_units"), Dim.sym(f"{p2}.arity"), Dim.sym(f"{p2}.num_input_units"))
+    for c in idx_calls:
+        loc = f"{f.module.relpath}:{c.lineno}"
+        kw = {k.arg: k.value for k in c.keywords}
+        axis = kw.get("axis")
+        if axis is None or (isinstance(axis, ast.Constant) and axis.value in (1, -1)):
+            out.append(ok("R14q", f.qualname, "kronecker-columns:axis", "re-indexes the columns (the last axis of the (Ko, H*Ki) weight)", loc))
+        elif isinstance(axis, ast.Constant):
+            out.append(viol("R14q", f.qualname, "kronecker-columns:axis", f"the re-indexing acts on axis {axis.value}: the input-unit columns of a sum weight are axis 1", loc))
+        else:
+            out.append(unres("R14q", f.qualname, "kronecker-columns:axis", "axis is not a literal: no verdict", loc))
+        # the conditions under which the re-indexing is skipped: only K1 == 1 or H2 == 1 are harmless
+        par: dict[int, ast.AST] = {}
+        for n in ast.walk(f.node):
+            for ch in ast.iter_child_nodes(n):
+                par[id(ch)] = n
+        cur: ast.AST | None = c
+        conj: list[ast.AST] = []
+        odd = False
+        while cur is not None and cur is not f.node:
+            up = par.get(id(cur))
+            if isinstance(up, ast.If):
+                if any(cur is b for b in up.body):
+                    conj += up.test.values if isinstance(up.test, ast.BoolOp) and isinstance(up.test.op, ast.And) else [up.test]
+                elif any(cur is b for b in up.orelse):
+                    odd = True
+            cur = up
+        harmless = {f"{p1}.num_input_units", f"{p2}.arity"}
+        bad = []
+        for t in conj:
+            good = (
+                isinstance(t, ast.Compare) and len(t.ops) == 1 and dotted(t.left) in harmless and isinstance(t.comparators[0], ast.Constant)
+                and ((isinstance(t.ops[0], (ast.Gt, ast.NotEq)) and t.comparators[0].value == 1) or (isinstance(t.ops[0], ast.GtE) and t.comparators[0].value == 2))
+            )
+            if not good:
+                bad.append(unparse(t))
+        if odd:
+            out.append(unres("R14q", f.qualname, "kronecker-columns:when", "the re-indexing sits in an else branch: no verdict", loc))
+        elif bad:
+            out.append(viol("R14q", f.qualname, "kronecker-columns:when", f"the re-indexing is skipped unless `{' and '.join(bad)}`: the two layouts differ whenever {p1}.num_input_units > 1 and {p2}.arity > 1, whatever else holds", loc))
+        else:
+            out.append(ok("R14q", f.qualname, "kronecker-columns:when", "skipped only when K1 == 1 or H2 == 1, where the two layouts coincide", loc))
+        ind = kw.get("indices")
+        comp = None
+        if ind is not None:
+            cands = [ind] if isinstance(ind, ast.ListComp) else [d for d in (ld.defs.get(ind.id, []) if isinstance(ind, ast.Name) else []) if isinstance(d, ast.ListComp)]
+            comp = cands[0] if len(cands) == 1 else None
+        if comp is None:
+            out.append(unres("R14q", f.qualname, "kronecker-columns:indices", "the indices are not a single list comprehension: no verdict", loc))
+            continue
+        env: dict[str, Dim] = {}
+        bounds: list[Dim | None] = []
+        vars_: list[str] = []
+        okc = True
+        for g in comp.generators:
+            if not (isinstance(g.target, ast.Name) and isinstance(g.iter, ast.Call) and isinstance(g.iter.func, ast.Name) and g.iter.func.id == "range" and len(g.iter.args) == 1 and not g.ifs):
+                okc = False
+                break
+            vars_.append(g.target.id)
+            bounds.append(_poly(g.iter.args[0], {}, ld))
+            env[g.target.id] = Dim.sym("loop:" + g.target.id)
+        if not okc or len(vars_) != 4 or any(b is None for b in bounds):
+            out.append(unres("R14q", f.qualname, "kronecker-columns:indices", "the comprehension is not four nested `for v in range(<size>)`: no verdict", loc))
+            continue
+        elt = _poly(comp.elt, env, ld)
+        if elt is None:
+            out.append(unres("R14q", f.qualname, "kronecker-columns:indices", "the index expression is not a polynomial of the loop variables: no verdict", loc))
+            continue
+        # which loop variable ranges over which size; the expected nesting is (H1, H2, K1, K2)
+        want_b = [H1, H2, K1, K2]
+        if bounds != want_b:
+            out.append(viol("R14q", f.qualname, "kronecker-columns:indices", f"the positions are enumerated over ({', '.join(repr(b) for b in bounds)}): the inputs of the product sum layer are enumerated as ({p1}.arity, {p2}.arity, {p1}.num_input_units, {p2}.num_input_units) -- pairs of inputs first, first operand major, then the units of the pair", loc))
+            continue
+        a1, a2, i1, i2 = (env[v] for v in vars_)
+        want = (a1 * K1 + i1) * (H2 * K2) + a2 * K2 + i2
+        if elt == want:
+            out.append(ok("R14q", f.qualname, "kronecker-columns:indices", "position (a1, a2, i1, i2) reads Kronecker column (a1*K1 + i1)*(H2*K2) + a2*K2 + i2 (polynomial identity)", loc))
+        else:
+            out.append(viol("R14q", f.qualname, "kronecker-columns:indices", f"position (a1, a2, i1, i2) reads column {elt!r}, the Kronecker product holds that entry at {want!r}", loc))
+    out += _sum_pairs_first_operand_major(ctx)
+    return out
+
+
+def _sum_pairs_first_operand_major(ctx: Ctx, fq: str = "cirkit.symbolic.functional.multiply") -> list[Ob]:
+    """the other half of R14q: `multiply` enumerates the pairs of inputs of two sum layers as
+    itertools.product(<inputs of the first operand's layer>, <inputs of the second's>) -- the order the
+    re-indexed weight assumes"""
+    f = ctx.repo.func(fq)
+    ps = [p.name for p in f.params if p.kind == "pos"]
+    ld = LocalDefs(f.node)
+    out: list[Ob] = []
+
+    def operand(e: ast.AST) -> int | None:
+        seen = set()
+        work = [e]
+        hits: set[int] = set()
+        for _ in range(4):
+            nxt = []
+            for x in work:
+                for n in ast.walk(x):
+                    if isinstance(n, ast.Name):
+                        if n.id in ps[:2]:
+                            hits.add(ps.index(n.id))
+                        elif n.id not in seen:
+                            seen.add(n.id)
+                            nxt += [d for d in ld.defs.get(n.id, []) if isinstance(d, ast.expr)]
+            if hits:
+                break
+            work = nxt
+        return next(iter(hits)) if len(hits) == 1 else None
+
+    for n in ast.walk(f.node):
+        if isinstance(n, ast.Call) and (dotted(n.func) or "").split(".")[-1] == "product" and len(n.args) == 2 and not n.keywords:
+            # the pairs of *inputs* (not of the circuits' outputs): both arguments derive from layer_inputs
+            if not all(any(isinstance(c, ast.Call) and isinstance(c.func, ast.Attribute) and c.func.attr == "layer_inputs" for ex in [a, *ld.expand(a)] for c in ast.walk(ex)) for a in n.args):
+                continue
+            o1, o2 = operand(n.args[0]), operand(n.args[1])
+            loc = f"{f.module.relpath}:{n.lineno}"
+            if (o1, o2) == (0, 1):
+                out.append(ok("R14q", f.qualname, "sum-pairs:first-operand-major", f"`{unparse(n)[:60]}`: pairs enumerated first operand major", loc))
+            elif (o1, o2) == (1, 0):
+                out.append(viol("R14q", f.qualname, "sum-pairs:first-operand-major", f"`{unparse(n)[:60]}` enumerates the pairs of inputs second operand major: the weight of the product sum layer (multiply_sum_layers) is laid out first operand major", loc))
+            else:
+                out.append(unres("R14q", f.qualname, "sum-pairs:first-operand-major", f"`{unparse(n)[:60]}`: which operand each argument belongs to was not derived", loc))
+    if not out:
+        out.append(unres("R14q", f.qualname, "sum-pairs:first-operand-major", "no itertools.product over two layers' inputs in multiply (another formulation): no verdict", f.loc))
+    return out
